@@ -82,7 +82,7 @@ ArchDateField(s) == ByteSlice(s, 4, 12)
 ArchTimeField(s) == ByteSlice(s, 13, 19)
 (* "yes": both fields all digits and a valid calendar date / time of day -> Some(exact instant)
    "no" : a field is missing, or contains a character that chrono's numeric parsing can never accept
-   "unspecified": anything else (signs, blanks: chrono's leniency is not part of the property) *)
+   "unspecified": anything else (signs, blanks: chrono's leniency is not part of the property; a separator other than '_') *)
 Lenient(c) == IsDigit(c) \/ c \in {43, 45, 32, 9, 10, 11, 12, 13}
 ArchClass(s) ==
     LET df == ArchDateField(s)
@@ -96,6 +96,8 @@ ArchClass(s) ==
        ELSE IF ~AllDigits(tf) THEN "unspecified"
        ELSE IF DecVal(SubSeq(tf, 1, 2), 0) > 23 \/ DecVal(SubSeq(tf, 3, 4), 0) > 59 THEN "no"
        ELSE IF DecVal(SubSeq(tf, 5, 6), 0) > 59 THEN "unspecified"     \* leap second 60 is chrono's business
+       ELSE IF ByteSlice(s, 12, 13) # <<95>> THEN "unspecified"         \* C16 speaks of SSSSYYYYMMDD_HHMMSS: with another separator the name is
+                                                                        \* not of that form (the code ignores the byte; a stricter parser may refuse it)
        ELSE "yes"
 ArchDays(s) == LET df == ArchDateField(s) IN DaysFromCivil(DecVal(SubSeq(df, 1, 4), 0), DecVal(SubSeq(df, 5, 6), 0), DecVal(SubSeq(df, 7, 8), 0))
 ArchSecs(s) == LET tf == ArchTimeField(s) IN DecVal(SubSeq(tf, 1, 2), 0) * 3600 + DecVal(SubSeq(tf, 3, 4), 0) * 60 + DecVal(SubSeq(tf, 5, 6), 0)
